@@ -60,6 +60,36 @@ def gen(tier, rng):
             for op2 in (["f"], ["s"], ["m"]):
                 cases.append("bits %s %s" % (nal_src(parts, False), ",".join(pos_ops(endpos) + op2)))
                 cases.append("bits %s %s" % (nal_src(parts, True), ",".join(pos_ops(endpos) + op2)))
+    # the borrowed inner reader (BitReader::reader()) between queries: the answers depend on the position only
+    for _ in range(600 if tier == "quick" else 12000):
+        ln = rng.randrange(1, 10)
+        body = bytes(rng.choice([0, 0x80, 0x80, 1, 0x40, rng.randrange(256)]) for _ in range(ln))
+        rbsp = body + rng.choice([b"", b"\x80", b"\x80\x00", b"\x00\x00"])
+        ops = []
+        for _ in range(rng.randrange(2, 7)):
+            ops.append(rng.choice(["m", "m", "R1", "R2", "R%d" % rng.randrange(0, 12), "u8.8", "u8.%d" % rng.randrange(0, 9), "b", "t8"]))
+        ops.append(rng.choice(["m", "f", "s"]))
+        if rng.random() < 0.5:
+            cases.append("bits raw:%s %s" % (hx(rbsp), ",".join(ops)))
+        else:
+            nal = bytes([0x68]) + escape(rbsp)
+            parts, i = [], 0
+            while i < len(nal):
+                k = rng.choice([1, 2, 3, 8])
+                parts.append(nal[i:i + k])
+                i += k
+            cases.append("bits %s %s" % (nal_src(parts, rng.random() < 0.7), ",".join(ops)))
+    # long runs of trailing zero bytes (cabac_zero_words) after the stop bit, with and without a stray bit behind them:
+    # run lengths around the powers of two (block-wise comparisons), contiguous and chunked
+    for z in sorted({max(0, p + d) for p in (16, 32, 64, 128, 256, 512, 1024, 4096) for d in (-2, -1, 0, 1, 2)} | {100, 200, 300, 5000}):
+        for stray in (b"", b"\x01", b"\x80", b"\x00\x10"):
+            for body, pos in ((b"\x4d\x80", 8), (b"\x4d\xa0", 10), (b"\x80", 0), (b"\x4d", 8)):
+                rbsp = body + bytes(z) + stray
+                for op in (["f"], ["s"], ["m", "m"]):
+                    cases.append("bits raw:%s %s" % (hx(rbsp), ",".join(pos_ops(pos) + op)))
+                nal = bytes([0x68]) + escape(rbsp)
+                cut = rng.randrange(1, len(nal))
+                cases.append("bits %s %s" % (nal_src([nal[:cut], nal[cut:]], True), ",".join(pos_ops(pos) + [rng.choice(["f", "s", "m"])])))
     return cases
 
 
@@ -75,6 +105,11 @@ def extra_check(r):
     data = bytes.fromhex(p[1][4:]) if p[1][4:] != "-" else b""
     bits = [(byte >> (7 - i)) & 1 for byte in data for i in range(8)]
     ops = p[2].split(",")
+    k = 0
+    while k < len(ops) and ops[k].startswith("u32."):
+        k += 1
+    if ops[k:] not in (["m", "m", "u8.8"], ["m", "m"], ["f"], ["s"], ["m"]):
+        return None            # histories with other operations are judged against the model only
     pos = sum(int(o.split(".")[1]) for o in ops if o.startswith("u32."))
     last = ops[-1] if ops[-1] in ("f", "s") else "m"
     toks = r["dev"].split()
@@ -85,9 +120,9 @@ def extra_check(r):
     res = toks[npre:]
     if last == "m":
         want = "T" if any(rest[1:]) else "F"
-        if res[:2] != [want, want]:
+        if res[:len(ops[k:])][:2] != [want, want][:len([o for o in ops[k:] if o == "m"])]:
             return ("value", "has_more_rbsp_data should be %s (twice)" % want)
-        if len(rest) >= 8:
+        if len(rest) >= 8 and ops[k:] == ["m", "m", "u8.8"]:
             v = 0
             for x in rest[:8]:
                 v = v * 2 + x
